@@ -477,6 +477,20 @@ impl<'a, T: Evaluate> PiecewiseEvaluator<'a, T> {
     }
 }
 
+#[cfg(feature = "verif-hooks")]
+impl<'a, T> PiecewiseEvaluator<'a, T> {
+    /// Verification hook (read-only): the complete mutable state of the
+    /// evaluator as (segments already skipped by the cursor, segments still
+    /// ahead of the cursor, bits of the remembered last argument).
+    pub fn verif_state(&self) -> (usize, usize, u64) {
+        (
+            self.all_segments_front.len() - self.tail.len(),
+            self.tail.len(),
+            self.last_evaluation.to_bits(),
+        )
+    }
+}
+
 impl<T: Evaluate> Evaluate for Piecewise<T> {
     #[inline]
     fn evaluate(&self, x: f64) -> f64 {
